@@ -35,7 +35,7 @@ PROPERTIES = {
         ],
         "canaries": [
             {"name": "binop-operand-order", "contract": "cohdl._compiler.backend.vhdl._vhdl_repr:BinOp.write", "case": "SUB:Unsigned,Unsigned", "file": "cohdl/_compiler/backend/vhdl/_vhdl_repr.py",
-             "old": "        return f\"({self._lhs.write(scope)}) {op} ({self._rhs.write(scope)})\"", "new": "        return f\"({self._rhs.write(scope)}) {op} ({self._lhs.write(scope)})\""},
+             "old": "        return f\"({lhs}) {op} ({rhs})\"", "new": "        return f\"({rhs}) {op} ({lhs})\""},
             {"name": "reflected-compare", "contract": "cohdl._compiler.frontend._prepare_ast:PrepareAst.apply_impl.<single_compare>", "case": "GtE:A,B", "file": "cohdl/_compiler/frontend/_prepare_ast.py",
              "old": "                    return evaluate(\"__ge__\", \"__le__\")", "new": "                    return evaluate(\"__ge__\", \"__lt__\")"},
             {"name": "all-folding", "contract": "cohdl._compiler.frontend._prepare_ast:PrepareAst.convert_intrinsic", "case": "all:[FT]", "file": "cohdl/_compiler/frontend/_prepare_ast.py",
